@@ -21,7 +21,7 @@ DRIVER = "Drivers/C02.lean"
 FB = D.FB
 M64 = dsl.M64
 GLOBAL_BASE = interp.MAP_BASE
-CLASSES = ["sum-minus", "unary-in-place", "unary-32-in-64", "narrow-reg-in-64"]     # inherited, program level (C01)
+CLASSES = ["unary-in-place", "unary-32-in-64", "narrow-reg-in-64"]     # inherited, program level (C01)
 NEG = "divmod-negative"                                                               # inherited, input level (C01)
 
 
@@ -532,7 +532,8 @@ ASSUMPTIONS = ["decimal constants are decimal literals n/10^5 with |n| < 2^51 (a
                "outside); arithmetic between two Python numbers one of which is a float is CPython's, not ebpfcat's (not generated)",
                "fit precondition of the oracle: every node of the tree the generator computes (after the store scaling) has a value "
                "in the signed W-bit range, W = 32 if the destination or any leaf is at most 4 bytes wide, else 64; divisors non-zero; "
-               "statements in a program-level class of C01 (sum-minus, narrow-reg-in-64, ...) are counted, not judged (C01's findings)",
+               "statements in a program-level class of C01 (narrow-reg-in-64, ...) are counted, not judged (C01's findings); Sum - x is "
+               "judged at full strength since Sum.__sub__ was repaired",
                "comparisons: the scaling rule of `comparison` is corresponded with the model (cmpScale); the emitted compare/branch code of "
                "fixed-point conditions is covered by EXECUTION against the Fraction reference only (operands 64 bits wide, non-negative, "
                "every node < 2^63); its opcode model is C03's (Ebv.Model.GenCond), not used here"]
